@@ -1,2 +1,4 @@
 import CobyqaVerif.Model.Value
 import CobyqaVerif.Model.Filter
+import CobyqaVerif.Model.SpecC03
+import CobyqaVerif.Props.C03
